@@ -2308,6 +2308,10 @@ def c02_sites(repo_root, tier):
                     if isinstance(t, ast.Try) and any(x is call for st in t.body for x in ast.walk(st)):
                         names = " ".join(ast.unparse(h.type) for h in t.handlers if h.type is not None)
                         ok = ok or ("OverflowError" in names and "OSError" in names)
+                if ast.unparse(call.func) == "dates.format_datetime" and ok:
+                    # babel also looks up every letter of the (data-supplied) pattern: an unknown one is a KeyError
+                    ok = any(isinstance(t, ast.Try) and any(x is call for st in t.body for x in ast.walk(st))
+                             and any(h.type is not None and "KeyError" in ast.unparse(h.type) for h in t.handlers) for t in ast.walk(fn))
                 _ob(obs, f"{m.name}:{qual}/site.fromtimestamp-guarded@{_ordinal(fn, call)}", ok,
                     "datetime.fromtimestamp(x) for a data-supplied x sits in a try that handles OverflowError and OSError" if ok
                     else "datetime.fromtimestamp(x) outside try/except (OverflowError, OSError): a large timestamp escapes as a non-Liquid exception")
